@@ -48,13 +48,13 @@ def throughput_spec(draw, max_rate):
 @st.composite
 def task_spec(draw, focus="timing"):
     """
-    focus="timing"  (C04): iteration-based, emphasis on errors, return shapes, overheads, slow responses, several clients
+    focus="timing"  (C04): iteration-based (1 in 6: time-based with ramp-up), emphasis on errors, return shapes, overheads, slow responses, several clients
     focus="control" (C05): all loop-control modes, ramp-up, schedulers, weight changes, finite sources
     """
     clients = draw(st.integers(1, 4))
     spec = {"clients": clients, "stride": draw(st.sampled_from([1, 3, 7])), "seed": draw(st.integers(0, 1000)),
             "perf_offset": draw(st.sampled_from([0.0, 100.0, 123456.5, -750.25])), "on_error": "continue"}
-    mode = "iterations" if focus == "timing" else draw(
+    mode = draw(st.sampled_from(["iterations"] * 5 + ["time"])) if focus == "timing" else draw(
         st.sampled_from(["iterations", "iterations", "time", "time", "time", "time", "finite-source", "runner-completion", "default"])
     )
     spec["mode"] = mode
@@ -69,10 +69,14 @@ def task_spec(draw, focus="timing"):
         services = SERVICE_ANY
         max_rate = 1000
     elif mode == "time":
-        wtp = draw(st.sampled_from([None, 0, 0.5, 2, 4]))
-        tpd = draw(st.sampled_from([1, 3, 10]))
+        if focus == "timing":  # C04 looks at ramped-up clients: their samples carry the instant at which they really were issued
+            wtp = draw(st.sampled_from([0.5, 2, 4]))
+            tpd = draw(st.sampled_from([1, 3]))
+        else:
+            wtp = draw(st.sampled_from([None, 0, 0.5, 2, 4]))
+            tpd = draw(st.sampled_from([1, 3, 10]))
         spec["warmup_time_period"], spec["time_period"] = wtp, tpd
-        if wtp and draw(st.integers(0, 3)):
+        if wtp and (focus == "timing" or draw(st.integers(0, 3))):
             spec["ramp_up"] = draw(st.sampled_from([r for r in [0.25, 0.5, 2, 4] if r <= wtp]))
             spec["global_offset"] = draw(st.integers(0, 3))
             spec["total_clients"] = spec["global_offset"] + clients + draw(st.integers(0, 3))
